@@ -19,6 +19,7 @@ import (
 
 	"verif/engine/core"
 	"verif/engine/harness"
+	"verif/engine/htmlform"
 	"verif/engine/samlgen"
 	"verif/engine/sched"
 	"verif/engine/xenc"
@@ -88,7 +89,10 @@ func c08Layouts() []c08Layout {
 }
 
 // c08Roles: how the SP's role descriptors are laid out around the one that holds the POST ACS endpoint and the key descriptors.
-var c08Roles = []string{"single", "lead-artifact-only-descriptor", "post-acs-in-second-position", "trail-artifact-only-descriptor", "lead-and-second-position"}
+var c08Roles = []string{"single", "lead-artifact-only-descriptor", "post-acs-in-second-position", "trail-artifact-only-descriptor", "lead-and-second-position",
+	// a second role descriptor with a POST endpoint of its own (another Location) and no key descriptors: the keys that count are those of
+	// the descriptor whose endpoint the response goes to
+	"trail-keyless-post-descriptor", "lead-keyless-post-descriptor"}
 
 func (l c08Layout) metadata(firstCertOverride string) *saml.EntityDescriptor {
 	return l.metadataRoles(firstCertOverride, "single")
@@ -126,6 +130,13 @@ func (l c08Layout) metadataRoles(firstCertOverride, roles string) *saml.EntityDe
 		ed.SPSSODescriptors = []saml.SPSSODescriptor{bare, sd}
 	case "trail-artifact-only-descriptor":
 		ed.SPSSODescriptors = []saml.SPSSODescriptor{sd, bare}
+	case "trail-keyless-post-descriptor", "lead-keyless-post-descriptor":
+		legacy := saml.SPSSODescriptor{SSODescriptor: proto, AssertionConsumerServices: []saml.IndexedEndpoint{{Binding: saml.HTTPPostBinding, Location: "https://sp.example.com/legacy/acs", Index: 2}}}
+		if roles == "trail-keyless-post-descriptor" {
+			ed.SPSSODescriptors = []saml.SPSSODescriptor{sd, legacy}
+		} else {
+			ed.SPSSODescriptors = []saml.SPSSODescriptor{legacy, sd}
+		}
 	}
 	b, err := xml.Marshal(ed)
 	if err != nil {
@@ -177,10 +188,13 @@ func runC08(c *core.Ctx) {
 	c.Group("idp-side")
 	for _, l := range layouts {
 		for si, ss := range sessions {
-			for _, kind := range []string{"sp-initiated", "idp-initiated"} {
+			for _, kind := range []string{"sp-initiated", "idp-initiated", "sp-initiated-naming-no-endpoint"} {
 				for _, roles := range c08Roles {
 					if roles != "single" && si > 1 {
 						continue // the role-descriptor arrangements with the first two sessions
+					}
+					if roles == "lead-keyless-post-descriptor" && kind != "sp-initiated" {
+						continue // (without a named endpoint the response goes to the keyless descriptor's own endpoint: nothing to encrypt to)
 					}
 					l, ss, kind, si, roles := l, ss, kind, si, roles
 					key := fmt.Sprintf("idp/%s/session=%s/%s", l.name, ss.name, kind)
@@ -272,6 +286,7 @@ func runC08(c *core.Ctx) {
 	}
 
 	c08Retry(c, layouts, sessions)
+	c08HandBuilt(c, layouts, sessions)
 	c08Overlap(c, layouts, sessions)
 	c08SPSide(c)
 }
@@ -345,6 +360,114 @@ func c08Retry(c *core.Ctx, layouts []c08Layout, sessions []c06Session) {
 				}
 				t.Compared()
 			})
+		}
+	}
+}
+
+// c08HandBuilt: an IdpAuthnRequest the application put together itself (an own launch flow, an own AssertionMaker) from the exported
+// fields - the SP's registered metadata, the endpoint, the assertion - with one of the fields the library's own flows always fill left
+// out. Stopping (an error, a panic: nothing is written) is fine; what is never fine is an answer with the assertion in clear for an SP
+// whose registered metadata publishes an encryption key.
+func c08HandBuilt(c *core.Ctx, layouts []c08Layout, sessions []c06Session) {
+	c.Group("idp-side-hand-built-requests")
+	for _, l := range layouts {
+		if !l.advertises {
+			continue
+		}
+		for _, left := range []string{"nothing", "SPSSODescriptor", "HTTPRequest", "RequestBuffer+Request.ID", "Now"} {
+			for _, via := range []string{"WriteResponse", "PostBinding", "MakeAssertionEl+MakeResponse"} {
+				l, left, via := l, left, via
+				key := fmt.Sprintf("hand-built/%s/left-out=%s/%s", l.name, left, via)
+				c.Case(key, func(t *core.T) {
+					t.NonTrivial()
+					md := l.metadata("")
+					sess := sessions[0].s
+					idp := harness.NewIDP("idp1", harness.SPRegistry{md.EntityID: md}, &sess)
+					doc := authnRequestXML(samlgen.S(samlgen.SPEntity), samlgen.S(samlgen.IDPSSO), samlgen.S("2.0"), samlgen.S(samlgen.TS(samlgen.T0)), samlgen.S(samlgen.SPAcs), nil, "id-req-c08-hand")
+					xmlenc.RandReader = harness.NewCtr("c08" + key)
+					var emitted [][]byte
+					_, p := guard(func() error {
+						full, err := saml.NewIdpAuthnRequest(idp, idpRequest("POST", doc, "relay"))
+						if err != nil {
+							return err
+						}
+						if err := full.Validate(); err != nil {
+							return err
+						}
+						if err := (saml.DefaultAssertionMaker{}).MakeAssertion(full, &sess); err != nil {
+							return err
+						}
+						req := &saml.IdpAuthnRequest{IDP: idp, HTTPRequest: full.HTTPRequest, RelayState: "relay", RequestBuffer: full.RequestBuffer, Request: full.Request,
+							ServiceProviderMetadata: full.ServiceProviderMetadata, SPSSODescriptor: full.SPSSODescriptor, ACSEndpoint: full.ACSEndpoint, Assertion: full.Assertion, Now: full.Now}
+						switch left {
+						case "SPSSODescriptor":
+							req.SPSSODescriptor = nil
+						case "HTTPRequest":
+							req.HTTPRequest = nil
+						case "RequestBuffer+Request.ID":
+							req.RequestBuffer, req.Request.ID = nil, ""
+						case "Now":
+							req.Now = time.Time{}
+						}
+						t.Impl(1)
+						switch via {
+						case "WriteResponse":
+							w := httptest.NewRecorder()
+							_ = req.WriteResponse(w)
+							if w.Body.Len() > 0 {
+								emitted = append(emitted, w.Body.Bytes())
+							}
+						case "PostBinding":
+							if f, err := req.PostBinding(); err == nil {
+								if raw, derr := base64.StdEncoding.DecodeString(f.SAMLResponse); derr == nil {
+									emitted = append(emitted, raw)
+								}
+							}
+						default:
+							if err := req.MakeAssertionEl(); err != nil {
+								return nil
+							}
+							if err := req.MakeResponse(); err == nil && req.ResponseEl != nil {
+								emitted = append(emitted, samlgen.Doc(req.ResponseEl.Copy()))
+							}
+						}
+						return nil
+					})
+					t.Compared()
+					if p != "" && len(emitted) == 0 {
+						t.Outcome("stopped-without-output")
+						return
+					}
+					t.Outcome(fmt.Sprintf("emitted=%d", len(emitted)))
+					for _, b := range emitted {
+						xmlBytes := b
+						if strings.Contains(string(b), "name=\"SAMLResponse\"") {
+							if f, err := htmlform.Parse(b); err == nil {
+								if raw, derr := base64.StdEncoding.DecodeString(f.Fields["SAMLResponse"]); derr == nil {
+									xmlBytes = raw
+								}
+							}
+						}
+						clear := false
+						if el := samlgen.Parse(xmlBytes); el != nil {
+							for _, a := range findNS(el, samlgen.NSAssertion, "Assertion") {
+								_ = a
+								clear = true
+							}
+						}
+						for m := range sessionStrings(&sess) {
+							if m != "" && strings.Contains(string(xmlBytes), m) {
+								clear = true
+							}
+						}
+						if clear {
+							t.Fail("C08/idp/hand-built-request-answered-in-clear", "[%s] the SP's registered metadata (layout %s) publishes an encryption key, the request was built by hand with %s left out, and what came out shows the assertion in clear", key, l.name, left)
+							t.Input("emitted", string(trunc(xmlBytes, 4000)))
+							return
+						}
+					}
+				})
+			}
 		}
 	}
 }
@@ -454,7 +577,11 @@ func c08Serve(idp *saml.IdentityProvider, kind string, round int) ([]byte, strin
 		if kind == "idp-initiated" {
 			idp.ServeIDPInitiated(w, httptest.NewRequest("GET", "https://idp.example.com/login/x", nil), samlgen.SPEntity, "relay")
 		} else {
-			doc := authnRequestXML(samlgen.S(samlgen.SPEntity), samlgen.S(samlgen.IDPSSO), samlgen.S("2.0"), samlgen.S(samlgen.TS(samlgen.T0)), samlgen.S(samlgen.SPAcs), nil, fmt.Sprintf("id-req-c08-%d", round))
+			acs := samlgen.S(samlgen.SPAcs)
+			if kind == "sp-initiated-naming-no-endpoint" {
+				acs = nil
+			}
+			doc := authnRequestXML(samlgen.S(samlgen.SPEntity), samlgen.S(samlgen.IDPSSO), samlgen.S("2.0"), samlgen.S(samlgen.TS(samlgen.T0)), acs, nil, fmt.Sprintf("id-req-c08-%d", round))
 			idp.ServeSSO(w, idpRequest("POST", doc, "relay"))
 		}
 		body = w.Body.Bytes()
